@@ -16,6 +16,8 @@ expressions.  The `rejects_*` examples are the shapes goose must (and does) refu
 import GooseVerif.Lemmas.Tr
 import GooseVerif.Lemmas.Arith
 import GooseVerif.Props.C01Scope
+import GooseVerif.Props.C01Core
+import GooseVerif.Props.C01Heap
 import GooseVerif.Gen.Guards
 import GooseVerif.Expected.Guards
 import GooseVerif.Gen.OpTables
